@@ -6,10 +6,12 @@ QUICK_L = [0, 1, 63, 64, 65, 128, 191]
 ALL_L = list(range(0, 193))
 for l in ALL_L:
     for k, op in enumerate(OPS):
-        quick = l in QUICK_L and not (op in ('clear', 'word_clone') and l not in (0, 65))
+        if l == 0 and op in ('set_bit', 'word_clone'):
+            continue   # no index exists in an empty vector
+        quick = l in QUICK_L and not (op in ('clear', 'word_clone') and l not in (65,)) and not (op in ('set_int', 'push_int', 'pop_int') and l > 65)
         inst(P, 'c05_raw_%s_l%d' % (op, l), 'c05::raw_step(%d, %d)' % (l, k), tier='quick' if quick else 'thorough',
              unwind=66 if l < 128 else 66, desc='RawVector %s: arbitrary valid %d-bit state, all arguments' % (op, l),
-             shape={'len': l, 'op': op}, cap=300,
+             shape={'len': l, 'op': op}, cap=600,
              stubs=['vec_resize'] if op in ('pop_bit', 'pop_int', 'resize') else [])
 
 for l, e in ((0, 1), (1, 63), (63, 2), (64, 1), (65, 64), (130, 7)):
@@ -38,7 +40,7 @@ for w in range(1, 65):
          stubs=['vec_resize', 'rawvec_reserve'], cap=600,
          desc='IntVector width %d: push / with_len+set / push+pop+resize routes are ==, same bytes' % w, shape={'width': w, 'len': n_for(w)})
 for t in ('u8', 'u16', 'u32', 'u64', 'usize'):
-    inst(P, 'c05_int_from_%s' % t, 'c05::from_%s()' % t, unwind=12, desc='From<Vec<%s>> and FromIterator<%s>: 3 symbolic items' % (t, t), shape={'type': t})
+    inst(P, 'c05_int_from_%s' % t, 'c05::from_%s()' % t, unwind=34, desc='From<Vec<%s>> and FromIterator<%s>: 3 symbolic items' % (t, t), shape={'type': t})
 inst(P, 'c05_int_ctor', 'c05::int_ctor()', unwind=4, desc='IntVector::new/with_capacity/with_len reject exactly width 0 and >64 (all usize)')
 
 extra(P, assumptions=[
